@@ -438,8 +438,13 @@ func (c *checker) tie(p protoSpec, seed int64, j sharing.ID, lab string, o *obs)
 							break
 						}
 					}
-					if k < 0 || k >= len(vals) || k >= len(idx) {
+					if k < 0 || k >= len(vals) {
 						c.mismatch("corr", p.Name+"-offset-tie", fmt.Sprintf("site %s of field %s is not in the draw specification of round %d", f.Site, f.Name, r), kase, what, false)
+						continue
+					}
+					if k >= len(idx) {
+						// the value cannot come from the specified read: the tape served no such read
+						c.mismatch("corr", p.Name+"-offset-tie", fmt.Sprintf("party %d: field %s = %s is specified to come from site %s = read %d of round %d, but the party's tape served only %d reads in that round", uint64(id), f.Name, vh.Hex(f.Got), f.Site, k, r, len(idx)), kase, what, true)
 						continue
 					}
 					if f.Got == nil {
